@@ -107,7 +107,7 @@ LEVEL_TEXT['C09'] = 'Kernel only. Unbounded deductive proof (Verus) on the real 
 NOTE['C09'] = 'Kernel only. Trusted: Verus/Z3; the descriptor-table model of Close/Dup/Fcntl; assumed contracts for expansion and for writing the here-document body; await points dropped; loops over drain() checked in an equivalent form. Not covered: here-document content, callers of RedirGuard, move_fd_internal, VirtualSystem.'
 TECH['C09'] = 'contract-based deductive verification (Verus, Z3) of perform / replace_target / RedirGuard::{new, perform_redir, undo_redirs, preserve_redirs, drop} and the openers (open_normal, open_file, open_file_noclobber, copy_fd, here_doc::open_fd) against a ghost descriptor table'
 
-LEVEL_TEXT['C18'] = 'Kernel only. Unbounded deductive proof (Verus) on the real FdReader2::next_line against an assumed model of read(2): each read asks for one byte, the bytes consumed from the descriptor are exactly the returned line, ending at the first newline, on success and on error; nothing that follows the line is taken from the input; bounded Kani check that the read built-in's read_char decodes and consumes exactly one character under every chunking of the reads. The lexer / read-eval-loop half of the property (a new line is requested only when needed, each command runs before the next is read) is async interpreter code and is not decided; level other because the claim is a kernel over a model of the OS side.'
+LEVEL_TEXT['C18'] = 'Kernel only. Unbounded deductive proof (Verus) on the real FdReader2::next_line against an assumed model of read(2): each read asks for one byte, the bytes consumed from the descriptor are exactly the returned line, ending at the first newline, on success and on error; nothing that follows the line is taken from the input; bounded Kani check that read_char of the read built-in decodes and consumes exactly one character under every chunking of the reads. The lexer / read-eval-loop half of the property (a new line is requested only when needed, each command runs before the next is read) is async interpreter code and is not decided; level other because the claim is a kernel over a model of the OS side.'
 NOTE['C18'] = 'Kernel only (the line reader). Trusted: Verus/Z3; the synchronous model of Read; assumed contract of slice::from_mut; await points dropped; text conversion uninterpreted. Kani part bounded (read_char: inputs <= 4 bytes, every chunking). Not covered: lexer buffer management, runner, Memory / Echo / prompt decorators, cross-process sharing of the descriptor, the backslash processing of read().'
 TECH['C18'] = 'contract-based deductive verification (Verus, Z3) of FdReader2::next_line (loop invariant over the consumed byte stream of a model descriptor) + bounded Kani harness-encoded contract of read_char (all inputs <= 4 bytes x all chunkings) on the real crate'
 
